@@ -372,6 +372,11 @@ def extra_blocks(n):
     for units in deep:
         if units:
             blocks.append(('article', ('section',) + units, 'plain', 'default', None, 'XHTML', splits, False))
+    for units in shapes('article', 2):
+        if units:
+            # forbidden characters that are letters (the titles and ids consist of letters only)
+            blocks.append(('article', units, 'plain', 'idtitle', 'qz', 'XHTML', [1, 2], False))
+            blocks.append(('article', units, 'rich', 'idtitle', ('xS :', ''), 'HTML5min', [1, 2], False))
     for units in shapes('book', 3):
         if len(units) >= 2:
             sp = [0, 1, 2, 3] if (len(units) == 2 or n > 2) else [1, 3]
